@@ -1,6 +1,58 @@
 """C17 — local order parameters equal their definitions: pair entropy S2, tetrahedral order, nematic tensor /
 scalar order, gyration-tensor shape descriptors.  Reference-model differentials (pbt/ref/localorder.py) plus
-constructions with known values (perfect tetrahedron, diamond lattice) and one metamorphic relation."""
+constructions with known values (perfect tetrahedron, diamond lattices in cubic / orthorhombic / rhombohedral cells)
+and metamorphic relations (tetrahedral: non-neighbours moved away).
+
+CLAUSES (statement + quantifier split into axes; facet -> deciding assertion; class tags measured in
+evidence/C17.json coverage.facets.<facet>.classes)
+
+ S2  a  S2_i = -(d-1) pi rho T[(g ln g - g + 1) r^(d-1)]     s2_*: close("S2 ...") vs ref.s2_from_g (own trapezoid rule,
+        (trapezoid rule on the bin centres)                    prefactor from d); d2/d3, bins1, bins<10 .. bins>100, rdelta-int
+     b  g = Gaussian-smeared per-particle pair distribution    close("particle g ...") on the returned and the saved g
+                                                               (savegr / nogr, file / nofile, 2nd-savegr)
+     c  built from minimum-image distances                     ortho / tri / axes-permuted (upper-triangular H) /
+                                                               int64 cell; mask-full / mask-partial; inside / outside;
+                                                               rmax<=L/2 and rmax>L/2 (one image per pair either way);
+                                                               sheared: every frame its own cell
+     d  pair-type widths [type_i, type_j]                      sigma-sym / sigma-asym, K1..K3; labels-1..K and
+                                                               labels-gap (labels {1,3} in a 3x3 matrix, matrix larger
+                                                               than the labels used); types-per-frame (labels permuted
+                                                               between frames, same composition); sigma-int
+     e  all configurations x bin settings                      N2-3 / N4-9 / N10+ (s2_large: N 40..150 or 6..12 frames),
+                                                               gas / cluster / lattice, defaults (rdelta, ndelta and in
+                                                               3D ppp not passed: 500 bins of 0.02)
+     f  every call describes the contents at call time         again-repeat / again-inplace / again-alternate
+ TET a  depends only on the four nearest neighbours            tetra_far_move (one non-neighbour / all non-neighbours
+                                                               moved farther away: value unchanged to 1e-12) and the
+                                                               differential (full sort with tie margin)
+     b  = 1 - 3/32 sum_{j<k} (cos psi_jk + 1/3)^2              tetra_generic / tetra_sheared / tetra_large /
+                                                               tetra_intrepr: close("tetrahedral order")
+     c  exactly one for perfect tetrahedral coordination       tetra_perfect: cluster, diamond (rx x ry x rz
+                                                               conventional cells, unequal edges), diamond-primitive
+                                                               (rhombohedral cell, tilt of either sign): |q - 1| <= 1e-12
+     d  all 3D configurations with N >= 5                      N5 (forced in 1/4), N6-9, N10+, N17-40, tetra_large N
+                                                               130..420 (N>256) inhomogeneous (droplet+vapour, slab,
+                                                               void); masks; cells as S2 c; frames 1..3; ts-repeat/back
+ NEM a  Q = (d u u^T - I)/2                                    nematic: close("Q tensor") on NematicOrder.QIJ + side file
+     b  neighbour-averaged when a list is given                raw / list-directed / list-symmetric / list-fixed-k /
+                                                               list-repeats (a neighbour listed twice), cn-varies-within-
+                                                               frame, has-cn0, Nmax-exact / plus1 / default / trunc,
+                                                               white-space variants of the list file
+     c  scalar order sqrt(d/(d-1) tr Q^2)                      close("scalar order sqrt...")  (eigvals=False)
+     d  = twice the largest eigenvalue in 2D                   close("scalar order 2 lambda_max") (eigvals=True) and
+                                                               close("2D: trace scalar equals ...") between the two
+     e  all unit-vector fields and neighbour lists             random / aligned / crisp / axes-int (vectors (+-1,0),
+                                                               (0,+-1) as int64) fields, N1 .. N6+ (nematic_large: N
+                                                               50..300, up to 10 frames), frames1..3, call sequences
+                                                               on one object (extra-calls, nb-switch-same-object),
+                                                               positions-given / positions-None
+ GYR a  descriptors = documented functions of the              gyration: close(name) for every descriptor of the 3D
+        eigenvalues of the centred second-moment tensor        (five) and the 2D (three) list
+     b  all point clouds with N >= 2, 2D / 3D                  N2, N3-9, N10+, N100+, N>1024; d2/d3; offset; degenerate-
+                                                               eigenvalues; repr-int64 / repr-strided / repr-fortran
+ Not asserted (see ASSUMPTIONS): particles at discontinuities, particles whose g vanishes in a bin, 3D nematic order
+ (the library asserts ndim == 2), clouds with R_g = 0, single-precision input.
+"""
 from __future__ import annotations
 
 import math
@@ -27,46 +79,66 @@ from PyMatterSim.static.shape import gyration_tensor
 # particles are excluded by the oracle, the warnings are noise in the worker's stderr
 warnings.filterwarnings("ignore", category=RuntimeWarning)
 
-RULE = ("S2: d{2,3} x cell{ortho,tri} x K 1..3 x width matrices [type_i,type_j] (symmetric and not) x bins 2..60 x "
-        "periodicity masks x frames 1..2 (sheared class: 2..3 frames with per-frame tilt) x repeated calls {same "
-        "object, positions updated in place, two objects alternately}, non-trivial = some asserted particle has >= 2 contributing neighbours; "
-        "tetrahedral: 3D N>=5 (N=5 forced in 1/4 of the cases) x cells x masks x frames, non-trivial = >= 1 particle "
-        "with an unambiguous 4-nearest set and a value != 1; perfect tetrahedron / diamond: value 1; far-move: a "
-        "non-neighbour moved away; nematic: angles x frames 1..3 x optional neighbour file, non-trivial = N >= 2 and "
-        "not all orientations parallel; gyration: clouds N >= 2 in 2D/3D, non-trivial = R_g > 0 and N >= 3")
+RULE = ("S2: d{2,3} x cell{ortho,tri,axis-permuted tri,int64 ortho} x K 1..3 x width matrices [type_i,type_j] "
+        "(symmetric and not, float and int64, labels 1..K or a subset of 1..M with an M x M matrix) x labels constant or "
+        "permuted between frames x bins 1..60, 100..500 and the defaults x r_max below and above half the shortest edge "
+        "x periodicity masks x N 2..28 (s2_large: 40..150) x frames 1..2 (sheared class: 2..3 frames with per-frame "
+        "tilt; s2_large: up to 12) x repeated calls {same object, positions updated in place, two objects alternately}, "
+        "non-trivial = some asserted particle has >= 2 contributing neighbours; "
+        "tetrahedral: 3D N>=5 (N=5 forced in 1/4 of the cases, N up to 40; tetra_large 130..420 inhomogeneous; "
+        "tetra_intrepr int64 coordinates and cell) x cells x masks x frames, non-trivial = >= 1 particle "
+        "with an unambiguous 4-nearest set and a value != 1; perfect tetrahedron / diamond (cubic, orthorhombic and "
+        "rhombohedral supercells): value 1; far-move: one or all non-neighbours moved away; nematic: angles x frames 1..3 "
+        "x optional neighbour file {directed, symmetric, fixed-k, repeated entries} x Nmax {exact, +1, default, "
+        "truncating} x sequences of 2..4 calls on one or several objects, non-trivial = N >= 2 and not all orientations "
+        "parallel; gyration: clouds N >= 2 in 2D/3D (N up to 3000, float64 / int64 / strided / Fortran-ordered), "
+        "non-trivial = R_g > 0 and N >= 3")
 ASSUMPTIONS = [
     "S2: pairs with minimum-image distance >= r_max (centre of the last bin) do not contribute to g (implementation "
     "convention encoded by the golden tests); particles with a pair within 1e-9 r_max of that limit are not asserted",
     "S2: particles whose smeared g is exactly 0 in some bin (no neighbour inside r_max, or Gaussian underflow) are "
     "excluded and counted: 0 ln 0 is not defined by the statement; widths are >= r_max/35 so underflow cannot occur "
     "when a neighbour exists",
-    "S2: r_max <= half the shortest box edge; minimum image = fractional rounding (contract of C02)",
+    "S2: one image per pair - the minimum image by fractional rounding (contract of C02) - also when r_max exceeds half "
+    "the shortest box edge (the statement builds g from minimum-image distances); rho = N / prod(boxlength), cells are "
+    "lower-triangular or an axis permutation of one, so that prod(boxlength) is the cell volume",
+    "S2: type labels index the width matrix as sigmas[label_i - 1, label_j - 1]; the matrix covers every label used and "
+    "may be larger; labels of a frame are those of that frame (swap moves keep the composition)",
     "tetrahedral: particles whose 4th and 5th nearest distances agree to 1e-9, that have a coincident partner or a "
     "half-cell minimum-image tie among the relevant candidates are not asserted (counted as ambiguous)",
-    "nematic: the library supports d = 2 only (assert ndim == 2); Nmax >= largest coordination number",
-    "gyration: all points coincident (R_g = 0) is outside the domain; fractal dimension asserted when |log10 R_g| > 1e-3",
+    "nematic: the library supports d = 2 only (assert ndim == 2); a particle listed twice among the neighbours counts "
+    "twice (the sum runs over the N_i listed entries); Nmax below a coordination number keeps the first Nmax entries "
+    "(the reader's documented truncation, C05)",
+    "gyration: all points coincident (R_g = 0) is outside the domain; fractal dimension asserted when |log10 R_g| > 1e-3; "
+    "float64 or int64 coordinates (readers deliver float64; single precision is not generated)",
 ]
 MANIFEST = {
     "text": ("Generated-input differential of the four local-order routines against independent numpy references "
              "written from the definitions: S2.particle_s2 (per-particle Gaussian-smeared g and -(d-1) pi rho "
-             "trapezoid integral; 2D/3D, 1-3 species with [type_i,type_j] widths, 10-60 bins, orthogonal and "
-             "triclinic cells, periodicity masks, 1-2 frames; also the saved g and .npy files), q8_tetrahedral "
-             "(1 - 3/32 sum over the four nearest; N >= 5 including exactly 5; rotated/scaled perfect tetrahedra and "
-             "diamond lattices give 1 to 1e-12; moving a non-neighbour farther away changes nothing), both also on "
+             "trapezoid integral; 2D/3D, 1-3 species with [type_i,type_j] widths, labels 1..K or a subset of a larger "
+             "matrix, labels permuted between frames, 1-500 bins and the defaults, r_max below and above half the box, "
+             "orthogonal, triclinic, axis-permuted and int64 cells, periodicity masks, N 2-150, 1-12 frames; also the "
+             "saved g and .npy files), q8_tetrahedral "
+             "(1 - 3/32 sum over the four nearest; N >= 5 including exactly 5, up to 420 inhomogeneous particles, int64 "
+             "coordinates; rotated/scaled perfect tetrahedra and diamond lattices in cubic, orthorhombic and rhombohedral "
+             "supercells give 1 to 1e-12; moving one or all non-neighbours farther away changes nothing), both also on "
              "sheared trajectories (2-3 frames whose tilt factors differ while the edge lengths stay equal, every "
              "frame against the oracle with its own cell matrix) and on repeated calls (same S2 object twice, "
              "positions overwritten in place between calls, two S2 objects used alternately), "
-             "NematicOrder.tensor (Q = (d u u^T - I)/2, neighbour average from a synthetic list file, trace and "
-             "eigenvalue scalars, their equality in 2D, .npy side files) and gyration_tensor (2D/3D descriptors from "
-             "the eigenvalues of the centred second-moment tensor)."),
+             "NematicOrder.tensor (Q = (d u u^T - I)/2, neighbour average from synthetic list files - directed, "
+             "symmetric, fixed-k, repeated entries, truncating Nmax, several white-space layouts -, trace and "
+             "eigenvalue scalars, their equality in 2D, .npy side files, sequences of 2-4 calls on one object) and "
+             "gyration_tensor (2D/3D descriptors from the eigenvalues of the centred second-moment tensor; N 2-3000, "
+             "float64 / int64 / strided / Fortran-ordered input)."),
     "note": ("Trusted base: pbt/ref/localorder.py and pbt/ref/geom.py (numpy). Not asserted: particles at "
              "discontinuities (r_ij within 1e-9 of r_max, 4th/5th-neighbour ties, half-cell image ties), particles "
-             "whose g vanishes in a bin, 3D nematic order (rejected by the library), degenerate clouds with R_g = 0."),
+             "whose g vanishes in a bin, 3D nematic order (rejected by the library), degenerate clouds with R_g = 0, "
+             "single-precision coordinates."),
     "technique": ("property-based testing (Hypothesis): reference-model differential, plus constructed inputs with "
                   "known value and a metamorphic relation (tetrahedral), file/return round trip (nematic, S2)"),
 }
 
-# =============================================================================== S2
+# =============================================================================== shared generators
 
 
 def dense(shape, elements, dtype=np.float64):
@@ -128,8 +200,39 @@ def sheared_cells(draw, cell, F):
     return cells
 
 
+def _schedule(kind, F):
+    """Timestep labels of the frames.  The routines of this property never read them: 'one result row per frame, in
+    the order of the Snapshots object' whatever the labels say (repeated / decreasing labels occur after restarts)."""
+    if kind == "repeat":
+        return [100 * (k // 2) for k in range(F)]
+    if kind == "back":
+        return [100 * (F - k) for k in range(F)]
+    return [100 * k for k in range(F)]
+
+
+def _permute_cell(c, p):
+    """Cell after the axis permutation p: row / column a of the new matrix is row / column p[a] of the old one.  A
+    lower-triangular (LAMMPS) matrix becomes a general one (upper-triangular for the reversal)."""
+    p = list(p)
+    return {"d": c["d"], "kind": "general", "H": c["H"][np.ix_(p, p)].copy(), "lo": np.asarray(c["lo"])[p].copy(),
+            "origin": c["origin"]}
+
+
+def permute_axes(case, p):
+    """The same physical configuration with its Cartesian axes renamed: positions, cell(s), mask."""
+    p = list(p)
+    out = dict(case)
+    out["cell"] = _permute_cell(case["cell"], p)
+    if "cells" in case:
+        out["cells"] = [_permute_cell(c, p) for c in case["cells"]]
+    out["pos"] = [np.ascontiguousarray(q[:, p]) for q in case["pos"]]
+    out["ppp"] = np.asarray(case["ppp"])[p].copy()
+    out["axes"] = p
+    return out
+
+
 @st.composite
-def config_case(draw, d, N, cell, K=1, frames=(1, 2), shear=False):
+def config_case(draw, d, N, cell, K=1, frames=(1, 2), shear=False, swap_types=False, permute=True):
     F = draw(st.integers(*frames))
     cells = draw(sheared_cells(cell, F)) if shear else [cell] * F
     affine = shear and draw(st.booleans())
@@ -147,11 +250,19 @@ def config_case(draw, d, N, cell, K=1, frames=(1, 2), shear=False):
     offs = np.zeros((N, d))
     if draw(st.booleans()):
         offs = draw(hnp.arrays(np.int64, (N, d), elements=st.integers(-1, 1))).astype(float) * ppp
+    sched = draw(st.sampled_from(["regular", "regular", "repeat", "back"])) if F >= 2 else "regular"
     case = {"d": d, "cell": cells[0], "pos": [c["lo"] + (f + offs) @ c["H"] for f, c in zip(fr, cells)],
             "types": draw(types_st(N, K)), "ppp": ppp, "K": K, "kind": "+".join(kinds),
-            "timesteps": [100 * k for k in range(F)], "outside": bool(np.any(offs))}
+            "timesteps": _schedule(sched, F), "schedule": sched, "outside": bool(np.any(offs))}
     if shear:
         case["cells"] = cells
+    if swap_types and K >= 2 and F >= 2 and draw(st.booleans()):
+        # swap Monte Carlo / fix atom/swap: the labels move between particles, the composition stays
+        case["types_f"] = [case["types"]] + [case["types"][list(draw(st.permutations(range(N))))] for _ in range(F - 1)]
+    if permute and cells[0]["kind"] == "tri" and draw(st.integers(0, 3)) == 0:
+        p = draw(st.permutations(range(d)))
+        if list(p) != list(range(d)):
+            case = permute_axes(case, p)
     return case
 
 
@@ -159,12 +270,31 @@ def cells_of(case):
     return case.get("cells") or [case["cell"]] * len(case["pos"])
 
 
+def types_of(case, f):
+    tf = case.get("types_f")
+    return case["types"] if tf is None else tf[f]
+
+
+def _int_snapshot(cell, pos, types, ts):
+    """Hand-built snapshot the way a caller assembles one from integers: int64 positions, edge lengths, bounds and
+    cell matrix (np.diag([10, 10, 10]))."""
+    from PyMatterSim.reader.reader_utils import SingleSnapshot
+
+    L = np.rint(np.diag(cell["H"])).astype(np.int64)
+    lo = np.rint(cell["lo"]).astype(np.int64)
+    return SingleSnapshot(timestep=int(ts), nparticle=len(pos), particle_type=np.array(types, dtype=int),
+                          positions=np.array(pos, dtype=np.int64), boxlength=L.copy(),
+                          boxbounds=np.stack([lo, lo + L], axis=1), realbounds=None, hmatrix=np.diag(L))
+
+
 def snaps_of(case, pos=None):
-    """Snapshots with each frame's own cell (hmatrix / boxbounds / realbounds)."""
+    """Snapshots with each frame's own cell (hmatrix / boxbounds / realbounds) and its own type labels."""
     from PyMatterSim.reader.reader_utils import Snapshots
 
     pos = case["pos"] if pos is None else pos
-    snaps = [gen.snapshot_from(c, p, case["types"], ts) for c, p, ts in zip(cells_of(case), pos, case["timesteps"])]
+    make = _int_snapshot if case.get("intrepr") else gen.snapshot_from
+    snaps = [make(c, p, types_of(case, k), ts)
+             for k, (c, p, ts) in enumerate(zip(cells_of(case), pos, case["timesteps"]))]
     return Snapshots(nsnapshots=len(snaps), snapshots=snaps)
 
 
@@ -178,29 +308,112 @@ def shear_tags(case):
     return out
 
 
+def cell_tags(case):
+    """Cell kind of the case (measured on the matrices actually passed) and the parity of its tilt factors."""
+    out = []
+    Hs = [c["H"] for c in cells_of(case)]
+    if case.get("intrepr"):
+        out.append("cell-int64")
+    if any(np.any(np.triu(H, 1)) for H in Hs):
+        out.append("axes-permuted")
+    offd = np.concatenate([(H - np.diag(np.diag(H))).ravel() for H in Hs])
+    if np.any(offd < 0):
+        out.append("tilt-neg")
+    if np.any(offd > 0):
+        out.append("tilt-pos")
+    if len(case["pos"]) >= 2:
+        out.append("ts-" + case.get("schedule", "regular"))
+    return out
+
+
+# =============================================================================== S2
+
+
 @st.composite
-def s2_case(draw, d=None, shear=False):
+def s2_case(draw, d=None, shear=False, nrange=(2, 28), frames=None):
     if d is None:
         d = draw(st.sampled_from([2, 3]))
-    N = draw(st.integers(4, 20 if shear else 28))
+    N = draw(st.integers(nrange[0], min(20, nrange[1]) if shear else nrange[1]))
     K = draw(st.integers(1, min(3, N)))
     rho = draw(st.sampled_from([0.6, 1.0, 2.0]))
     Lm = (N / rho) ** (1.0 / d)
     cell = draw(cell_st(d, "tri" if shear else "any", lmin=0.75 * Lm, lmax=1.3 * Lm, origin="any"))
-    case = draw(config_case(d, N, cell, K=K, frames=(2, 3) if shear else (1, 2), shear=shear))
-    # minimal bin counts (2..9) in about one case out of six (tied to N: Hypothesis over-samples small selectors)
-    ndelta = draw(st.integers(2, 9)) if N % 6 == 0 else draw(st.integers(10, 60))
-    frac = draw(st.sampled_from([0.65, 0.8, 0.97]))
-    rmax = frac * float(np.diag(cell["H"]).min()) / 2.0
-    rdelta = rmax / (ndelta - 0.5)
-    slo = max(0.05, rmax / 35.0)
-    sig = draw(dense((K, K), nice_float(slo, 0.3)))
+    if frames is None:
+        frames = (2, 3) if shear else (1, 2)
+    case = draw(config_case(d, N, cell, K=K, frames=frames, shear=shear, swap_types=True))
+    # labels: 1..K, or K labels out of 1..M (a ternary matrix used for a trajectory that holds two of the species)
+    M = K
+    if draw(st.integers(0, 3)) == 0:
+        M = K + draw(st.integers(1, 2))
+        labels = np.array(draw(st.lists(st.integers(1, M), min_size=K, max_size=K, unique=True)), dtype=int)
+        case["types"] = labels[case["types"] - 1]
+        if "types_f" in case:
+            case["types_f"] = [labels[t - 1] for t in case["types_f"]]
+    case["M"] = M
+    Lmin = float(np.diag(cells_of(case)[0]["H"]).min())
+    defaults = N <= 28 and draw(st.sampled_from([False] * 11 + [True]))
+    if defaults:
+        # rdelta = 0.02, ndelta = 500 (and ppp in 3D) are not passed: r_max = 9.99, far beyond half of these boxes.
+        # With widths >= 0.29 the Gaussians of the pairs that exist (r_ij <= a few box lengths) still reach every bin
+        # without underflow (9.99 / 0.29 < 35 standard deviations).
+        ndelta, rdelta = 500, 0.02
+        rmax = (ndelta - 0.5) * rdelta
+        slo, shi = 0.29, 0.5
+    else:
+        # minimal bin counts (1..9) in about one case out of six (tied to N: Hypothesis over-samples small selectors),
+        # production-size bin counts (100..500) in one out of eight
+        if N % 6 == 0:
+            ndelta = draw(st.integers(1, 9))   # one bin: the trapezoid rule has no panel, S2 = 0
+        elif N % 8 == 1:
+            ndelta = draw(st.integers(100, 500))
+        else:
+            ndelta = draw(st.integers(10, 60))
+        # r_max relative to half the shortest edge: mostly inside, sometimes beyond (still one image per pair)
+        frac = draw(st.sampled_from([0.65, 0.8, 0.97, 0.97, 1.3]))
+        rmax = frac * Lmin / 2.0
+        rdelta = rmax / (ndelta - 0.5)
+        slo, shi = max(0.05, rmax / 35.0), max(0.3, rmax / 35.0 + 0.05)
+    sig = draw(dense((M, M), nice_float(slo, shi)))
     if draw(st.booleans()):
         sig = np.triu(sig) + np.triu(sig, 1).T
-    case.update(sigmas=sig, rdelta=rdelta, ndelta=ndelta, savegr=draw(st.booleans()),
+    case.update(sigmas=sig, rdelta=rdelta, ndelta=ndelta, defaults=defaults, savegr=draw(st.booleans()),
                 outputfile=draw(st.sampled_from(["", "s2out"])),
-                again=draw(st.sampled_from(["no", "no", "no", "repeat", "inplace", "inplace", "alternate"])))
+                again=draw(st.sampled_from(["no", "no", "no", "repeat", "inplace", "inplace", "alternate"])),
+                again_savegr=draw(st.booleans()), again_file=draw(st.sampled_from(["", "s2out", "s2again"])))
     return case
+
+
+@st.composite
+def s2_int_case(draw):
+    """Argument representation: everything a caller can write down as integers is int64 - lattice-site coordinates,
+    edge lengths, bounds, the cell matrix np.diag(L), the width matrix, the bin width.  The values are ordinary."""
+    d = draw(st.sampled_from([2, 3]))
+    L = np.array([draw(st.integers(4, 14 if d == 2 else 8)) for _ in range(d)], dtype=np.int64)
+    nsites = int(np.prod(L))
+    N = draw(st.integers(2, min(24, nsites)))
+    F = draw(st.integers(1, 2))
+    K = draw(st.integers(1, min(3, N)))
+    lo = np.array([draw(st.integers(-20, 20)) for _ in range(d)], dtype=np.int64)
+    ppp = draw(ppp_st(d, True))
+    outside = draw(st.booleans())
+    pos = []
+    for _ in range(F):
+        sites = draw(st.lists(st.integers(0, nsites - 1), min_size=N, max_size=N, unique=True))
+        p = np.stack(np.unravel_index(np.array(sites, dtype=np.int64), tuple(int(x) for x in L)), axis=1).astype(np.int64)
+        if outside:
+            p = p + draw(hnp.arrays(np.int64, (N, d), elements=st.integers(-1, 1))) * ppp * L
+        pos.append(lo + p)
+    cell = {"d": d, "kind": "ortho", "H": np.diag(L).astype(float), "lo": lo.astype(float), "origin": "arbitrary"}
+    rdelta = draw(st.sampled_from([1, 1, 2, 0.5, 0.75]))
+    ndelta = draw(st.integers(2, 8))
+    sig = draw(dense((K, K), st.integers(1, 2), dtype=np.int64))
+    sched = draw(st.sampled_from(["regular", "repeat", "back"])) if F == 2 else "regular"
+    return {"d": d, "cell": cell, "pos": pos, "types": draw(types_st(N, K)), "ppp": ppp, "K": K, "M": K,
+            "kind": "int-lattice", "timesteps": _schedule(sched, F), "schedule": sched, "outside": outside,
+            "intrepr": True, "sigmas": sig, "rdelta": rdelta, "ndelta": ndelta, "defaults": False,
+            "savegr": draw(st.booleans()), "outputfile": draw(st.sampled_from(["", "s2out"])),
+            "again": draw(st.sampled_from(["no", "no", "repeat", "inplace", "alternate"])),
+            "again_savegr": draw(st.booleans()), "again_file": draw(st.sampled_from(["", "s2again"]))}
 
 
 def same(name, got, want):
@@ -220,12 +433,14 @@ def _rm(*names):
 
 
 def _s2_compare(case, pos, s2, gout, label, cnt):
-    """Compare one particle_s2 result with the oracle for the positions `pos` (each frame with its own cell)."""
+    """Compare one particle_s2 result with the oracle for the positions `pos` (each frame with its own cell and its
+    own type labels)."""
     d, ppp, nb = case["d"], np.asarray(case["ppp"]), case["ndelta"]
     N = len(case["types"])
     for f, cell in enumerate(cells_of(case)):
         H = cell["H"]
-        g, amb, r, rho = ref.particle_g(pos[f], case["types"], H, ppp, case["sigmas"], case["rdelta"], nb)
+        g, amb, r, rho = ref.particle_g(np.asarray(pos[f], dtype=float), types_of(case, f), H, ppp,
+                                        np.asarray(case["sigmas"], dtype=float), float(case["rdelta"]), nb)
         want = ref.s2_from_g(g, r, rho, d)
         scale = ref.s2_scale(r, rho, d)
         ok = ~amb & np.isfinite(want) & (g.min(axis=1) > 1e-290)
@@ -237,9 +452,30 @@ def _s2_compare(case, pos, s2, gout, label, cnt):
             if gout is not None:
                 close(f"particle g {label}frame {f}", gout[f][ok], g[ok], rtol=1e-9, atol=1e-200)
             # contributing neighbours (for the non-trivial rule)
-            ii, jj, _, dist, _ = geom.pair_table(pos[f], H, ppp)
+            ii, jj, _, dist, _ = geom.pair_table(np.asarray(pos[f], dtype=float), H, ppp)
             c = np.bincount(ii[dist < r[-1]], minlength=N)
             cnt["rich"] = cnt["rich"] or bool(np.any(c[ok] >= 2))
+
+
+def _call_s2(obj, savegr, of, F, N, nb, label=""):
+    """One particle_s2 call: shapes, the attribute handed to spatial_corr / time_corr, the saved files."""
+    _rm(of + ".npy", "particle_gr." + of + ".npy")
+    out = obj.particle_s2(savegr=savegr, outputfile=of)
+    if savegr:
+        require(isinstance(out, tuple) and len(out) == 2, lambda: f"savegr=True must return (s2, g), got {type(out)}")
+        s2, gout = out
+        gout = arr(f"particle g{label}", gout, shape=(F, N, nb))
+    else:
+        s2, gout = out, None
+    s2 = arr(f"particle_s2{label}", s2, shape=(F, N))
+    same(f"S2.s2_results (input of spatial_corr / time_corr){label}", obj.s2_results, s2)
+    if of:
+        require(os.path.exists(of + ".npy"), f"outputfile given but no .npy written{label}")
+        same(f"saved S2 file{label}", np.load(of + ".npy"), s2)
+        if savegr:
+            require(os.path.exists("particle_gr." + of + ".npy"), f"savegr with outputfile: g file missing{label}")
+            same(f"saved g file{label}", np.load("particle_gr." + of + ".npy"), gout)
+    return s2, gout
 
 
 def check_s2(case):
@@ -247,56 +483,66 @@ def check_s2(case):
     F, N, nb = len(case["pos"]), len(case["types"]), case["ndelta"]
     snaps = snaps_of(case)
     of = case["outputfile"]
-    _rm("s2out.npy", "particle_gr.s2out.npy", "particle_gr..npy")
+    defaults = bool(case.get("defaults"))
 
     def make(sn):
+        if defaults:  # rdelta = 0.02, ndelta = 500 from the signature; ppp too where the default has the right length
+            if d == 3 and ppp.all():
+                return S2(sn, case["sigmas"].copy())
+            return S2(sn, case["sigmas"].copy(), ppp.copy())
         return S2(snapshots=sn, sigmas=case["sigmas"].copy(), ppp=ppp.copy(), rdelta=case["rdelta"], ndelta=nb)
 
     obj = make(snaps)
-    out = obj.particle_s2(savegr=case["savegr"], outputfile=of)
-    if case["savegr"]:
-        require(isinstance(out, tuple) and len(out) == 2, lambda: f"savegr=True must return (s2, g), got {type(out)}")
-        s2, gout = out
-        gout = arr("particle g", gout, shape=(F, N, nb))
-    else:
-        s2, gout = out, None
-    s2 = arr("particle_s2", s2, shape=(F, N))
-    same("S2.s2_results (input of spatial_corr / time_corr)", obj.s2_results, s2)
-    if of:
-        require(os.path.exists(of + ".npy"), "outputfile given but no .npy written")
-        same("saved S2 file", np.load(of + ".npy"), s2)
-        if case["savegr"]:
-            require(os.path.exists("particle_gr." + of + ".npy"), "savegr with outputfile: g file missing")
-            same("saved g file", np.load("particle_gr." + of + ".npy"), gout)
-
+    s2, gout = _call_s2(obj, case["savegr"], of, F, N, nb)
     cnt = {"asserted": 0, "excluded": 0, "ambiguous": 0, "rich": False}
     _s2_compare(case, case["pos"], s2, gout, "", cnt)
 
     # state carried between calls: every call must describe the contents at call time
     again = case.get("again", "no")
+    sg2, of2 = bool(case.get("again_savegr", False)), case.get("again_file", "")
     sink = {"asserted": 0, "excluded": 0, "ambiguous": 0, "rich": False}
     rev = [p[::-1].copy() for p in case["pos"]]  # same particles' positions handed to the types in reverse order
     if again == "repeat":
-        r2 = arr("particle_s2 (second call)", obj.particle_s2(), shape=(F, N))
-        _s2_compare(case, case["pos"], r2, None, "second call on the same object, ", sink)
+        r2, g2 = _call_s2(obj, sg2, of2, F, N, nb, " (second call)")
+        _s2_compare(case, case["pos"], r2, g2, "second call on the same object, ", sink)
     elif again == "inplace":
         for sn, p in zip(snaps.snapshots, rev):
             sn.positions[...] = p
-        r2 = arr("particle_s2 (after in-place update)", obj.particle_s2(), shape=(F, N))
-        _s2_compare(case, rev, r2, None, "after positions were updated in place, ", sink)
+        r2, g2 = _call_s2(obj, sg2, of2, F, N, nb, " (after in-place update)")
+        _s2_compare(case, rev, r2, g2, "after positions were updated in place, ", sink)
     elif again == "alternate":
         objb = make(snaps_of(case, rev))
-        rb = arr("particle_s2 (object B)", objb.particle_s2(), shape=(F, N))
-        _s2_compare(case, rev, rb, None, "second S2 object, ", sink)
-        ra = arr("particle_s2 (object A again)", obj.particle_s2(), shape=(F, N))
-        _s2_compare(case, case["pos"], ra, None, "first S2 object after the second was used, ", sink)
+        rb, gb = _call_s2(objb, sg2, of2, F, N, nb, " (object B)")
+        _s2_compare(case, rev, rb, gb, "second S2 object, ", sink)
+        ra, ga = _call_s2(obj, sg2, of2, F, N, nb, " (object A again)")
+        _s2_compare(case, case["pos"], ra, ga, "first S2 object after the second was used, ", sink)
 
-    tags = [f"d{d}", case["cell"]["kind"], f"K{case['K']}", f"frames{F}",
+    Lmin = float(min(np.diag(c["H"]).min() for c in cells_of(case)))
+    rmax = (nb - 0.5) * float(case["rdelta"])
+    labels = np.unique(np.concatenate([types_of(case, f) for f in range(F)]))
+    M = int(np.asarray(case["sigmas"]).shape[0])
+    kind = case["cell"]["kind"]
+    tags = [f"d{d}", "tri" if kind == "general" else kind, f"K{case['K']}", f"frames{min(F, 4)}" + ("+" if F >= 4 else ""),
             "mask-partial" if not ppp.all() else "mask-full",
             "sigma-sym" if np.array_equal(case["sigmas"], case["sigmas"].T) else "sigma-asym",
-            "bins<10" if nb < 10 else ("bins<=20" if nb <= 20 else ("bins<=40" if nb <= 40 else "bins>40")),
+            "bins1" if nb == 1 else "bins<10" if nb < 10 else ("bins<=20" if nb <= 20 else ("bins<=40" if nb <= 40 else
+                                                                     ("bins<=60" if nb <= 60 else "bins>100"))),
             "savegr" if case["savegr"] else "nogr", "file" if of else "nofile",
-            "outside" if case["outside"] else "inside", "again-" + again] + shear_tags(case)
+            "outside" if case["outside"] else "inside", "again-" + again,
+            "N2-3" if N <= 3 else ("N4-9" if N < 10 else ("N10+" if N <= 28 else "N40+")),
+            "rmax>L/2" if rmax > Lmin / 2.0 else "rmax<=L/2",
+            "labels-1..K" if (M == len(labels) and labels[-1] == M) else "labels-gap",
+            case["kind"].split("+")[0].split(":")[0]] + shear_tags(case) + cell_tags(case)
+    if again != "no" and sg2:
+        tags.append("2nd-savegr")
+    if "types_f" in case:
+        tags.append("types-per-frame")
+    if defaults:
+        tags.append("defaults")
+    if np.asarray(case["sigmas"]).dtype.kind == "i":
+        tags.append("sigma-int")
+    if isinstance(case["rdelta"], int):
+        tags.append("rdelta-int")
     if cnt["excluded"]:
         tags.append("has-excluded")
     if cnt["asserted"] == 0:
@@ -310,12 +556,15 @@ def describe_cfg(case):
     dsc = gen.describe_config(case)
     if "cells" in case:
         dsc["H_per_frame"] = [np.round(c["H"], 4).tolist() for c in case["cells"]]
+    if "types_f" in case:
+        dsc["types_per_frame"] = [np.asarray(t).tolist()[:12] for t in case["types_f"]]
     return dsc
 
 
 def describe_s2(case):
     dsc = describe_cfg(case)
-    dsc.update(sigmas=case["sigmas"].tolist(), rdelta=case["rdelta"], ndelta=case["ndelta"])
+    dsc.update(sigmas=np.asarray(case["sigmas"]).tolist(), rdelta=case["rdelta"], ndelta=case["ndelta"],
+               defaults=bool(case.get("defaults")), again=case.get("again"))
     return dsc
 
 
@@ -325,11 +574,75 @@ def describe_s2(case):
 @st.composite
 def tetra_case(draw, shear=False):
     five = draw(st.integers(0, 3)) == 0
-    N = 5 if five else draw(st.integers(6, 16))
+    N = 5 if five else draw(st.one_of(st.integers(6, 16), st.integers(6, 16), st.integers(17, 40)))
     cell = draw(cell_st(3, "tri" if shear else "any", lmin=1.0, lmax=20.0, origin="any"))
     case = draw(config_case(3, N, cell, K=1, frames=(2, 3) if shear else (1, 2), shear=shear))
     case["outputfile"] = draw(st.sampled_from(["", "tetra"]))
     case["again"] = draw(st.sampled_from(["no", "no", "inplace"]))
+    return case
+
+
+@st.composite
+def tetra_int_case(draw):
+    """int64 coordinates on a fine integer grid, int64 edge lengths / bounds / cell matrix."""
+    five = draw(st.integers(0, 3)) == 0
+    N = 5 if five else draw(st.integers(6, 30))
+    L = np.array([draw(st.integers(40, 2000)) for _ in range(3)], dtype=np.int64)
+    lo = np.array([draw(st.integers(-500, 500)) for _ in range(3)], dtype=np.int64)
+    F = draw(st.integers(1, 2))
+    ppp = draw(ppp_st(3, True))
+    outside = draw(st.booleans())
+    pos = []
+    for _ in range(F):
+        p = np.floor(draw(dense((N, 3), fl(0.0, 1.0, exclude_max=True))) * L).astype(np.int64)
+        if outside:
+            p = p + draw(hnp.arrays(np.int64, (N, 3), elements=st.integers(-1, 1))) * ppp * L
+        pos.append(lo + p)
+    sched = draw(st.sampled_from(["regular", "repeat", "back"])) if F == 2 else "regular"
+    return {"d": 3, "cell": {"d": 3, "kind": "ortho", "H": np.diag(L).astype(float), "lo": lo.astype(float),
+                             "origin": "arbitrary"},
+            "pos": pos, "types": np.ones(N, dtype=int), "ppp": ppp, "K": 1, "kind": "int-grid",
+            "timesteps": _schedule(sched, F), "schedule": sched, "outside": outside, "intrepr": True,
+            "outputfile": draw(st.sampled_from(["", "tetra"])), "again": draw(st.sampled_from(["no", "inplace"]))}
+
+
+@st.composite
+def tetra_large_case(draw):
+    """N 130..420, inhomogeneous: the classes in which a candidate pre-selection (cell list, cube window, first block
+    of a chunked search) differs from the full search - droplet in vapour, slab, void, uniform control.  Coordinates
+    from numpy default_rng(seed) with the seed drawn by Hypothesis; particle order shuffled."""
+    N = draw(st.one_of(st.integers(130, 256), st.integers(257, 420)))
+    cell = draw(cell_st(3, "any", lmin=8.0, lmax=30.0, origin="any"))
+    style = draw(st.sampled_from(["droplet+vapour", "droplet+vapour", "slab", "void", "uniform"]))
+    F = draw(st.integers(1, 2))
+    seed = draw(st.integers(0, 2 ** 32 - 1))
+    ppp = draw(ppp_st(3, True))
+    rng = np.random.default_rng(seed)
+    pos = []
+    for _ in range(F):
+        f = rng.random((N, 3))
+        if style == "droplet+vapour":
+            n1 = int(0.7 * N)
+            f[:n1] = rng.random(3) + rng.uniform(0.05, 0.12) * rng.standard_normal((n1, 3))
+        elif style == "slab":
+            n1 = int(0.8 * N)
+            f[:n1, 2] = 0.5 + 0.1 * (rng.random(n1) - 0.5) * 2
+        elif style == "void":
+            c = rng.random(3)
+            for _ in range(50):
+                dv = f - c
+                dv -= np.round(dv)
+                inside = (dv ** 2).sum(axis=1) < 0.3 ** 2
+                if not inside.any():
+                    break
+                f[inside] = rng.random((int(inside.sum()), 3))
+        f = (f % 1.0)[rng.permutation(N)]
+        pos.append(cell["lo"] + f @ cell["H"])
+    sched = draw(st.sampled_from(["regular", "repeat", "back"])) if F == 2 else "regular"
+    case = {"d": 3, "cell": cell, "pos": pos, "types": np.ones(N, dtype=int), "ppp": ppp, "K": 1, "kind": style,
+            "timesteps": _schedule(sched, F), "schedule": sched, "outside": False, "outputfile": "", "again": "no"}
+    if cell["kind"] == "tri" and draw(st.integers(0, 3)) == 0:
+        case = permute_axes(case, draw(st.permutations(range(3))))
     return case
 
 
@@ -348,7 +661,7 @@ def _call_tetra(case, name="q8_tetrahedral", snaps=None):
 def _tetra_compare(case, pos, q, label, cnt):
     ppp = np.asarray(case["ppp"])
     for f, cell in enumerate(cells_of(case)):
-        want, amb, _, _, _ = ref.tetrahedral(pos[f], cell["H"], ppp)
+        want, amb, _, _, _ = ref.tetrahedral(np.asarray(pos[f], dtype=float), cell["H"], ppp)
         ok = ~amb
         cnt["asserted"] += int(ok.sum())
         cnt["ambiguous"] += int(amb.sum())
@@ -366,33 +679,49 @@ def check_tetra(case):
     _tetra_compare(case, case["pos"], q, "", cnt)
     again = case.get("again", "no")
     if again == "inplace":  # same Snapshots object, new contents
-        rot = [np.roll(p, 1, axis=0) * 1.0 for p in case["pos"]]
+        rot = [np.roll(np.asarray(p, dtype=float), 1, axis=0) for p in case["pos"]]
         new = [c["lo"] + ((p - c["lo"]) @ np.linalg.inv(c["H"]) * 0.9 + 0.05) @ c["H"] for p, c in zip(rot, cells_of(case))]
+        if case.get("intrepr"):
+            new = [np.rint(p).astype(np.int64) for p in new]
         for sn, p in zip(snaps.snapshots, new):
             sn.positions[...] = p
         q2 = _call_tetra(case, "q8_tetrahedral (after in-place update)", snaps=snaps)
         _tetra_compare(case, new, q2, "after positions were updated in place, ",
                        {"asserted": 0, "ambiguous": 0, "nontrivial": False})
-    tags = ["N5" if N == 5 else ("N6-9" if N < 10 else "N10+"), case["cell"]["kind"], f"frames{F}",
-            "mask-partial" if not ppp.all() else "mask-full", case["kind"].split("+")[0].split(":")[0],
-            "outside" if case["outside"] else "inside", "again-" + again] + shear_tags(case)
+    kind = case["cell"]["kind"]
+    tags = ["N5" if N == 5 else ("N6-9" if N < 10 else ("N10+" if N <= 16 else ("N17-40" if N <= 40 else
+                                                                               ("N130+" if N <= 256 else "N>256")))),
+            "tri" if kind == "general" else kind, f"frames{F}",
+            "mask-partial" if not ppp.all() else "mask-full", case["kind"].split("+")[0].split(":")[0]
+            if N <= 40 else case["kind"],
+            "outside" if case["outside"] else "inside", "again-" + again] + shear_tags(case) + cell_tags(case)
     if cnt["ambiguous"]:
         tags.append("has-ambiguous")
     return {"nontrivial": cnt["nontrivial"], "tags": tags,
             "extra": {"particles_asserted": cnt["asserted"], "particles_ambiguous": cnt["ambiguous"]}}
 
 
-# ---- perfect coordination: open tetrahedral cluster (rotated, scaled) and diamond lattice
+# ---- perfect coordination: open tetrahedral cluster (rotated, scaled) and diamond lattices
 
 
 @st.composite
 def perfect_case(draw):
-    kind = draw(st.sampled_from(["cluster", "cluster", "diamond"]))
-    if kind == "diamond":
+    kind = draw(st.sampled_from(["cluster", "cluster", "diamond", "diamond", "diamond-primitive"]))
+    if kind in ("diamond", "diamond-primitive"):
         a = draw(nice_float(1.0, 6.0))
-        reps = draw(st.sampled_from([1, 1, 2]))
-        L = a * reps
-        f = ref.diamond(reps)
+        if kind == "diamond":
+            # rx x ry x rz conventional cells: cubic supercells, and orthorhombic ones whose edges all differ
+            reps = tuple(draw(st.sampled_from([(1, 1, 1), (1, 1, 1), (2, 2, 2), (1, 2, 1), (2, 1, 1), (1, 1, 2), (1, 2, 3),
+                                               (3, 1, 2), (2, 3, 1)])))
+            Hm = np.diag(a * np.array(reps, dtype=float))
+            f = ref.diamond(reps)
+            ckind = "ortho"
+        else:
+            # supercell of the two-atom primitive (rhombohedral) cell: a triclinic box, tilt of either sign
+            reps = tuple(draw(st.sampled_from([(2, 2, 2), (2, 2, 2), (2, 3, 2), (3, 2, 2), (2, 2, 3), (3, 3, 3)])))
+            Hm, f = ref.diamond_primitive(reps, negative_tilt=draw(st.booleans()))
+            Hm = a * Hm
+            ckind = "tri"
         shift = draw(dense((3,), fl(0.0, 1.0)))
         f = (f + shift) % 1.0
         N = len(f)
@@ -400,12 +729,15 @@ def perfect_case(draw):
         if draw(st.booleans()):
             offs = draw(hnp.arrays(np.int64, (N, 3), elements=st.integers(-1, 1))).astype(float)
         lo = np.array([draw(nice_float(-10.0, 10.0)) for _ in range(3)])
-        cell = {"d": 3, "kind": "ortho", "H": np.diag([L, L, L]), "lo": lo, "origin": "arbitrary"}
+        cell = {"d": 3, "kind": ckind, "H": Hm, "lo": lo, "origin": "arbitrary"}
         perm = np.array(draw(st.permutations(range(N))))
         pos = (lo + (f + offs) @ cell["H"])[perm]
-        return {"d": 3, "cell": cell, "pos": [pos], "types": np.ones(N, dtype=int), "ppp": np.ones(3, dtype=int),
-                "K": 1, "kind": f"diamond{reps}", "timesteps": [0], "outside": bool(np.any(offs)),
+        case = {"d": 3, "cell": cell, "pos": [pos], "types": np.ones(N, dtype=int), "ppp": np.ones(3, dtype=int),
+                "K": 1, "kind": kind + "".join(str(r) for r in reps), "timesteps": [0], "outside": bool(np.any(offs)),
                 "centres": np.arange(N)}
+        if ckind == "tri" and draw(st.integers(0, 2)) == 0:
+            case = permute_axes(case, draw(st.permutations(range(3))))
+        return case
     s = draw(st.one_of(nice_float(0.1, 3.0), st.sampled_from([0.5, 1.0, 2.0])))
     qv = draw(dense((4,), fl(-1.0, 1.0)))
     if np.linalg.norm(qv) < 0.1:
@@ -443,8 +775,11 @@ def check_perfect(case):
     ok = ~amb
     if ok.any():
         close("tetrahedral order (all sites)", q[0][ok], want[ok], rtol=1e-9, atol=1e-12)
-    tags = [case["kind"], "N5" if N == 5 else "N>5", case["cell"]["kind"],
-            "mask-partial" if not ppp.all() else "mask-full"]
+    L = np.diag(H)
+    kind = case["cell"]["kind"]
+    tags = [case["kind"], "N5" if N == 5 else "N>5", "tri" if kind == "general" else kind,
+            "mask-partial" if not ppp.all() else "mask-full",
+            "edges-unequal" if (L.max() - L.min()) > 1e-9 * L.max() else "edges-equal"] + cell_tags(case)
     return {"nontrivial": True, "tags": tags, "extra": {"perfect_sites": int(len(c))}}
 
 
@@ -453,7 +788,7 @@ def describe_perfect(case):
             "ppp": np.asarray(case["ppp"]).tolist(), "pos": np.round(case["pos"][0][:6], 5).tolist()}
 
 
-# ---- metamorphic: a particle outside the four nearest of i moves farther from i; q_i does not change
+# ---- metamorphic: particles outside the four nearest of i move farther from i; q_i does not change
 
 
 @st.composite
@@ -464,13 +799,13 @@ def far_case(draw):
     ppp = draw(ppp_st(3, True))
     return {"d": 3, "cell": cell, "f": f, "types": np.ones(N, dtype=int), "ppp": ppp, "K": 1, "kind": "gas",
             "timesteps": [0], "outside": False, "i": draw(st.integers(0, N - 1)), "rank": draw(st.integers(0, N)),
-            "s": draw(st.sampled_from([1.01, 1.05, 1.1, 1.2]))}
+            "s": draw(st.sampled_from([1.01, 1.05, 1.1, 1.2])), "mode": draw(st.sampled_from(["one", "one", "all"])),
+            "s_all": draw(dense((N,), st.sampled_from([1.0, 1.01, 1.05, 1.1, 1.2])))}
 
 
 def check_far(case):
     H, lo, ppp = case["cell"]["H"], case["cell"]["lo"], np.asarray(case["ppp"])
     f = case["f"]
-    N = len(f)
     i = case["i"]
     pos = lo + f @ H
     want, amb, nn, d4, _ = ref.tetrahedral(pos, H, ppp)
@@ -481,38 +816,56 @@ def check_far(case):
     if not cand:
         return {"nontrivial": False, "tags": ["no-candidate"]}
     rank = case["rank"] % len(cand)
-    m = cand[rank]
+    mode = case.get("mode", "one")
     f2 = f.copy()
-    f2[m] = f[i] + case["s"] * (f[m] - f[i])  # |frac diff| <= 0.48 < 1/2: still the same image
+    if mode == "one":
+        m = cand[rank]
+        f2[m] = f[i] + case["s"] * (f[m] - f[i])  # |frac diff| <= 0.48 < 1/2: still the same image
+    else:  # every non-neighbour is pushed away from i along its own direction (factor 1 = stays)
+        for m in cand:
+            f2[m] = f[i] + float(case["s_all"][m]) * (f[m] - f[i])
     pos2 = lo + f2 @ H
     base = dict(case, pos=[pos])
     moved = dict(case, pos=[pos2])
     q1 = _call_tetra(base)
     q2 = _call_tetra(moved)
     close("tetrahedral order before the move", q1[0][i], want[i], rtol=1e-9, atol=1e-12)
-    close("tetrahedral order of i after moving a non-neighbour farther away", q2[0][i], q1[0][i], rtol=0, atol=1e-12)
-    tags = ["moved-5th" if rank == 0 else "moved-farther-rank", case["cell"]["kind"],
-            "mask-partial" if not ppp.all() else "mask-full"]
+    close("tetrahedral order of i after moving non-neighbours farther away", q2[0][i], q1[0][i], rtol=0, atol=1e-12)
+    tags = [("moved-5th" if rank == 0 else "moved-farther-rank") if mode == "one" else "moved-all-non-neighbours",
+            case["cell"]["kind"], "mask-partial" if not ppp.all() else "mask-full"]
     return {"nontrivial": True, "tags": tags}
 
 
 def describe_far(case):
     return {"N": int(len(case["f"])), "H": np.round(case["cell"]["H"], 4).tolist(), "i": case["i"],
-            "rank": case["rank"], "s": case["s"], "f": np.round(case["f"][:4], 4).tolist()}
+            "rank": case["rank"], "s": case["s"], "mode": case.get("mode", "one"), "f": np.round(case["f"][:4], 4).tolist()}
 
 
 # =============================================================================== nematic
 
 _UNIT_CELL = {"d": 2, "kind": "ortho", "H": np.eye(2), "lo": np.zeros(2), "origin": "zero"}
+_HEADERS = ["id     cn     neighborlist", "id cn neighborlist", "id   cn   neighborlist"]
 
 
 @st.composite
-def nematic_case(draw):
-    F = draw(st.integers(1, 3))
-    N = draw(st.one_of(st.integers(1, 12), st.integers(3, 12)))
-    field = draw(st.sampled_from(["random", "random", "aligned", "crisp"]))
-    if field == "crisp":
+def nematic_case(draw, nrange=(1, 12), frange=(1, 3), by_seed=False):
+    F = draw(st.integers(*frange))
+    N = draw(st.one_of(st.integers(*nrange), st.integers(max(3, nrange[0]), nrange[1])))
+    field = draw(st.sampled_from(["random", "random", "aligned", "crisp", "axes-int"]))
+    if field == "axes-int" and by_seed:
+        field = "crisp"
+    if by_seed:  # large fields: numpy default_rng(seed), seed drawn by Hypothesis
+        rng = np.random.default_rng(draw(st.integers(0, 2 ** 32 - 1)))
+        if field == "crisp":
+            ang = rng.integers(0, 16, (F, N)).astype(float) * (math.pi / 8.0)
+        elif field == "aligned":
+            ang = rng.uniform(0, 2 * math.pi) + rng.uniform(-0.2, 0.2, (F, N)) + math.pi * rng.integers(0, 2, (F, N))
+        else:
+            ang = rng.uniform(0, 2 * math.pi, (F, N))
+    elif field == "crisp":
         ang = draw(hnp.arrays(np.int64, (F, N), elements=st.integers(0, 15))).astype(float) * (math.pi / 8.0)
+    elif field == "axes-int":  # orientations along +-x / +-y, stored as int64 vectors (1, 0), (0, -1), ...
+        ang = draw(hnp.arrays(np.int64, (F, N), elements=st.integers(0, 3))).astype(float) * (math.pi / 2.0)
     elif field == "aligned":
         base = draw(fl(0.0, 2 * math.pi))
         ang = base + draw(dense((F, N), fl(-0.2, 0.2)))
@@ -520,71 +873,156 @@ def nematic_case(draw):
         ang = ang + math.pi * flip  # head-tail symmetry
     else:
         ang = draw(dense((F, N), fl(0.0, 2 * math.pi)))
-    use_nb = draw(st.integers(0, 2)) > 0 if N >= 2 else False
+    lists = draw(st.sampled_from(["none", "directed", "directed", "symmetric", "fixed-k", "repeats"])) if N >= 2 else "none"
     nbl = None
-    nmax = 30
-    if use_nb:
+    nmax_kind, nmax = "default", 30
+    if lists != "none":
         nbl = []
-        for _ in range(F):
-            frame = []
-            for i in range(N):
-                others = [j for j in range(N) if j != i]
-                k = draw(st.integers(0, min(len(others), 6)))
-                frame.append(list(draw(st.permutations(others)))[:k])
-            nbl.append(frame)
+        if by_seed:
+            for _ in range(F):
+                frame = []
+                for i in range(N):
+                    k = int(rng.integers(0, 9))
+                    row = [int(j) for j in rng.choice(N - 1, size=min(k, N - 1), replace=False)]
+                    frame.append([j + (j >= i) for j in row])
+                nbl.append(frame)
+            lists = "directed"
+        else:
+            for _ in range(F):
+                frame = []
+                if lists == "symmetric":  # cut-off style: j in nb(i) <=> i in nb(j), ids ascending
+                    adj = draw(hnp.arrays(np.bool_, (N, N), elements=st.booleans(), fill=st.nothing()))
+                    adj = np.triu(adj, 1)
+                    adj = adj | adj.T
+                    frame = [[int(j) for j in np.nonzero(adj[i])[0]] for i in range(N)]
+                else:
+                    kfix = draw(st.integers(1, min(N - 1, 4)))
+                    for i in range(N):
+                        others = [j for j in range(N) if j != i]
+                        k = kfix if lists == "fixed-k" else draw(st.integers(0, min(len(others), 6)))
+                        row = list(draw(st.permutations(others)))[:k]
+                        if lists == "repeats" and row and draw(st.booleans()):
+                            # small periodic boxes: a Voronoi cell shares two facets with the same neighbour (C20)
+                            row.insert(draw(st.integers(0, len(row))), row[draw(st.integers(0, len(row) - 1))])
+                        frame.append(row)
+                nbl.append(frame)
         maxcn = max(len(x) for fr in nbl for x in fr)
-        nmax = draw(st.sampled_from([max(1, maxcn), maxcn + 1, 30]))
-    return {"angles": ang, "nbl": nbl, "Nmax": nmax, "field": field, "reuse": draw(st.booleans()),
-            "outputfile": draw(st.sampled_from(["nem", "nem", "out.v2", ""]))}
+        nmax_kind = draw(st.sampled_from(["exact", "plus1", "default", "trunc" if maxcn >= 2 else "exact"]))
+        nmax = {"exact": max(1, maxcn), "plus1": maxcn + 1, "default": 30, "trunc": maxcn - 1}[nmax_kind]
+    # two base calls (trace, then eigenvalues, same list) and up to two further calls with free options; `fresh` = a
+    # new NematicOrder object, otherwise the object of the previous call is asked again
+    calls = [{"eig": False, "nb": nbl is not None, "of": draw(st.sampled_from(["nem", "nem", "out.v2", ""])), "fresh": True},
+             {"eig": True, "nb": nbl is not None, "of": None, "fresh": not draw(st.booleans())}]
+    calls[1]["of"] = calls[0]["of"]
+    for _ in range(draw(st.integers(0, 2))):
+        calls.append({"eig": draw(st.booleans()), "nb": nbl is not None and draw(st.booleans()),
+                      "of": draw(st.sampled_from(["nem", "second", ""])), "fresh": draw(st.integers(0, 3)) == 0})
+    return {"angles": ang, "nbl": nbl, "lists": lists, "Nmax": nmax, "nmax_kind": nmax_kind, "field": field,
+            "calls": calls, "sep": draw(st.sampled_from([" ", " ", "   ", "\t"])), "trail": draw(st.booleans()),
+            "header": draw(st.sampled_from(_HEADERS)),
+            "nbfile": draw(st.sampled_from(["nematic_neighbors.dat", "nb.list.txt", "lists/neigh.dat"])),
+            "with_positions": draw(st.booleans())}
+
+
+def _nematic_calls(case):
+    if "calls" in case:
+        return case["calls"]
+    # cases recorded before the call sequences were introduced: trace, then eigenvalues
+    of, nb = case["outputfile"], case["nbl"] is not None
+    return [{"eig": False, "nb": nb, "of": of, "fresh": True}, {"eig": True, "nb": nb, "of": of, "fresh": not case.get("reuse")}]
 
 
 def check_nematic(case):
     ang = case["angles"]
     F, N = ang.shape
     u = np.stack([np.cos(ang), np.sin(ang)], axis=-1)
-    snaps = gen.snapshots_from({"cell": _UNIT_CELL, "pos": [u[f].copy() for f in range(F)],
-                                "types": np.ones(N, dtype=int), "timesteps": list(range(F))})
-    of = case["outputfile"]
-    nbfile = ""
-    Q = ref.nematic_q(u)
-    qname = of + ".QIJ_raw.npy"
+    if case["field"] == "axes-int":
+        # argument representation: the unit vectors (+-1, 0), (0, +-1) as an int64 array
+        from PyMatterSim.reader.reader_utils import SingleSnapshot, Snapshots
+        u = np.rint(u).astype(np.int64)
+        snaps = Snapshots(nsnapshots=F, snapshots=[
+            SingleSnapshot(timestep=f, nparticle=N, particle_type=np.ones(N, dtype=int), positions=u[f].copy(),
+                           boxlength=np.ones(2), boxbounds=np.array([[0.0, 1.0], [0.0, 1.0]]), realbounds=None,
+                           hmatrix=np.eye(2)) for f in range(F)])
+    else:
+        snaps = gen.snapshots_from({"cell": _UNIT_CELL, "pos": [u[f].copy() for f in range(F)],
+                                    "types": np.ones(N, dtype=int), "timesteps": list(range(F))})
+    possnaps = None
+    if case.get("with_positions"):  # only spatial_corr reads the positions; tensor() must not care
+        possnaps = gen.snapshots_from({"cell": dict(_UNIT_CELL, H=np.eye(2) * 7.0), "pos": [7.0 * np.abs(u[f]) for f in range(F)],
+                                       "types": np.ones(N, dtype=int), "timesteps": list(range(F))})
+    nbfile = case.get("nbfile", "nematic_neighbors.dat")
+    Qraw = ref.nematic_q(u.astype(float))
+    Qcg = None
+    trunc = case.get("nmax_kind") == "trunc"
     if case["nbl"] is not None:
-        nbfile = "nematic_neighbors.dat"
+        if os.path.dirname(nbfile):
+            os.makedirs(os.path.dirname(nbfile), exist_ok=True)
         with open(nbfile, "w") as fh:
-            fh.write(ref.neighbour_text(case["nbl"]))
-        Q = ref.nematic_cg(Q, case["nbl"])
-        qname = of + ".QIJ_cg.npy"
-    for suffix in (".QIJ_raw.npy", ".QIJ_cg.npy", ".Qtrace.npy", ".eigval.npy"):
-        _rm(of + suffix)
-    want_t = ref.nematic_trace(Q)
-    want_e = ref.nematic_eig(Q)
+            fh.write(ref.neighbour_text(case["nbl"], sep=case.get("sep", " "), trail=case.get("trail", False),
+                                        header=case.get("header", _HEADERS[0])))
+        Qcg = ref.nematic_cg(Qraw, case["nbl"], nmax=case["Nmax"] if trunc else None)
 
-    no = NematicOrder(snaps, None)
-    t = arr("tensor(eigvals=False)", no.tensor(ndim=2, neighborfile=nbfile, Nmax=case["Nmax"], eigvals=False,
-                                               outputfile=of), shape=(F, N))
-    Qlib = arr("NematicOrder.QIJ", no.QIJ, shape=(F, N, 2, 2))
-    close("Q tensor", Qlib, Q, rtol=1e-9, atol=1e-12)
-    close("scalar order sqrt(d/(d-1) tr Q^2)", t, want_t, rtol=1e-9, atol=1e-12)
-    require(os.path.exists(qname), f"tensor side file {qname} not written")
-    same("Q tensor side file", np.load(qname), Qlib)
-    require(os.path.exists(of + ".Qtrace.npy"), "Qtrace side file not written")
-    same("Qtrace side file", np.load(of + ".Qtrace.npy"), t)
+    def new_object():
+        if possnaps is None:
+            return NematicOrder(snaps, None)
+        return NematicOrder(snaps, possnaps) if N % 2 else NematicOrder(snapshots_orientation=snaps, snapshots_position=possnaps)
 
-    # state between calls: half of the cases ask the same object again (self.QIJ is overwritten by every call)
-    no2 = no if case.get("reuse") else NematicOrder(snaps, None)
-    e = arr("tensor(eigvals=True)", no2.tensor(ndim=2, neighborfile=nbfile, Nmax=case["Nmax"], eigvals=True,
-                                               outputfile=of), shape=(F, N))
-    close("scalar order 2 lambda_max", e, want_e, rtol=1e-9, atol=1e-12)
-    require(os.path.exists(of + ".eigval.npy"), "eigval side file not written")
-    same("eigval side file", np.load(of + ".eigval.npy"), e)
-    close("2D: trace scalar equals twice the largest eigenvalue", t, e, rtol=1e-9, atol=1e-9)
+    calls = _nematic_calls(case)
+    obj = None
+    results = []
+    switched = False
+    prev_nb = None
+    for k, c in enumerate(calls):
+        fresh = obj is None or c["fresh"]
+        if fresh:
+            obj = new_object()
+        elif prev_nb is not None and prev_nb != c["nb"]:
+            switched = True
+        prev_nb = c["nb"]
+        of = c["of"]
+        Q = Qcg if c["nb"] else Qraw
+        qname = of + (".QIJ_cg.npy" if c["nb"] else ".QIJ_raw.npy")
+        sname = of + (".eigval.npy" if c["eig"] else ".Qtrace.npy")
+        _rm(qname, sname)
+        lab = f"call {k + 1} ({'eigvals' if c['eig'] else 'trace'}, {'list' if c['nb'] else 'raw'}, " \
+              f"{'new' if fresh else 'same'} object)"
+        kw = dict(ndim=2, neighborfile=nbfile if c["nb"] else "", eigvals=c["eig"], outputfile=of)
+        if case.get("nmax_kind", "x") != "default":
+            kw["Nmax"] = case["Nmax"]
+        out = arr(f"tensor, {lab}", obj.tensor(**kw), shape=(F, N))
+        Qlib = arr(f"NematicOrder.QIJ, {lab}", obj.QIJ, shape=(F, N, 2, 2))
+        close(f"Q tensor, {lab}", Qlib, Q, rtol=1e-9, atol=1e-12)
+        want = ref.nematic_eig(Q) if c["eig"] else ref.nematic_trace(Q)
+        close(("scalar order 2 lambda_max, " if c["eig"] else "scalar order sqrt(d/(d-1) tr Q^2), ") + lab, out, want,
+              rtol=1e-9, atol=1e-12)
+        require(os.path.exists(qname), f"tensor side file {qname} not written, {lab}")
+        same(f"Q tensor side file, {lab}", np.load(qname), Qlib)
+        require(os.path.exists(sname), f"scalar side file {sname} not written, {lab}")
+        same(f"scalar side file, {lab}", np.load(sname), out)
+        results.append((c, out))
+    # the two scalars agree in 2D (every pair of calls that describes the same tensor)
+    compared = False
+    for a, (ca, ra) in enumerate(results):
+        for cb, rb in results[a + 1:]:
+            if ca["nb"] == cb["nb"] and ca["eig"] != cb["eig"]:
+                close("2D: trace scalar equals twice the largest eigenvalue", ra, rb, rtol=1e-9, atol=1e-9)
+                compared = True
 
     spread = bool(N >= 2 and np.any(np.abs(np.sin(ang - ang[:, :1])) > 1e-6))
-    tags = [f"frames{F}", "N1" if N == 1 else ("N2-5" if N <= 5 else "N6+"), case["field"],
-            "neighbours" if case["nbl"] is not None else "raw", "file-" + (of or "empty"),
-            "same-object-twice" if case.get("reuse") else "fresh-objects"]
+    tags = [f"frames{min(F, 4)}" + ("+" if F >= 4 else ""), "N1" if N == 1 else ("N2-5" if N <= 5 else ("N6+" if N <= 12 else "N50+")),
+            case["field"], "neighbours" if case["nbl"] is not None else "raw", "file-" + (calls[0]["of"] or "empty"),
+            "same-object-twice" if not calls[1]["fresh"] else "fresh-objects",
+            "positions-given" if possnaps is not None else "positions-None"]
+    if len(calls) > 2:
+        tags.append("extra-calls")
+    if switched:
+        tags.append("nb-switch-same-object")
+    if compared:
+        tags.append("trace-vs-eig-compared")
     if case["nbl"] is not None:
         cns = [len(x) for fr in case["nbl"] for x in fr]
+        tags.append("list-" + case.get("lists", "directed"))
         tags.append("cn-varies" if len(set(cns)) > 1 else "cn-equal")
         # rows shorter than the frame maximum are zero-padded by the reader, i.e. padded with particle 0, whose
         # Q has eigenvalues +-1/2 (never zero): a leak through the padding changes the average by Q_0/(1+cn)
@@ -594,15 +1032,22 @@ def check_nematic(case):
             tags.append("padded-rows-with-neighbours")
         if 0 in cns:
             tags.append("has-cn0")
-        tags.append("Nmax=maxcn" if case["Nmax"] == max(1, max(cns)) else "Nmax>maxcn")
+        if any(len(set(x)) < len(x) for fr in case["nbl"] for x in fr):
+            tags.append("repeated-neighbour")
+        if any((j in case["nbl"][f][i]) != (i in case["nbl"][f][j]) for f in range(F) for i in range(N)
+               for j in case["nbl"][f][i]) if N <= 12 else True:
+            tags.append("list-asymmetric")
+        tags.append("Nmax-" + case.get("nmax_kind", "exact" if case["Nmax"] == max(1, max(cns)) else "plus1"))
+        tags.append("sep-" + {" ": "blank", "   ": "blanks", "\t": "tab"}[case.get("sep", " ")] + ("-trail" if case.get("trail") else ""))
         if F > 1 and any(case["nbl"][f] != case["nbl"][0] for f in range(1, F)):
             tags.append("lists-differ-between-frames")
     return {"nontrivial": spread, "tags": tags}
 
 
 def describe_nematic(case):
-    return {"angles": np.round(case["angles"], 5).tolist(), "nbl": case["nbl"], "Nmax": case["Nmax"],
-            "outputfile": case["outputfile"]}
+    small = case["angles"].size <= 60
+    return {"angles": np.round(case["angles"], 5).tolist() if small else f"array{case['angles'].shape}",
+            "nbl": case["nbl"] if small else "...", "Nmax": case["Nmax"], "calls": _nematic_calls(case)}
 
 
 # =============================================================================== gyration
@@ -611,7 +1056,7 @@ def describe_nematic(case):
 @st.composite
 def cloud_case(draw):
     d = draw(st.sampled_from([2, 3]))
-    kind = draw(st.sampled_from(["blob", "aniso", "line", "symmetric", "pair", "grid"]))
+    kind = draw(st.sampled_from(["blob", "aniso", "line", "symmetric", "pair", "grid", "large"]))
     if kind == "pair":
         x = draw(dense((2, d), fl(-1.0, 1.0)))
     elif kind == "symmetric":
@@ -627,6 +1072,14 @@ def cloud_case(draw):
         n = draw(st.integers(2, 4))
         x = np.array(np.meshgrid(*[np.arange(n, dtype=float)] * d)).reshape(d, -1).T
         x = x[: draw(st.integers(2, len(x)))]
+    elif kind == "large":
+        # hundreds to thousands of points (clusters of a percolation / nucleation analysis), sizes around the block
+        # lengths a chunked accumulation would use; coordinates from numpy default_rng(seed), seed drawn by Hypothesis
+        N = draw(st.one_of(st.integers(100, 1023), st.sampled_from([255, 256, 257, 1023, 1024, 1025, 2047, 2049]),
+                           st.integers(1025, 3000)))
+        rng = np.random.default_rng(draw(st.integers(0, 2 ** 32 - 1)))
+        x = rng.standard_normal((N, d)) * rng.uniform(0.05, 1.0, d)
+        x[N // 2:] += rng.uniform(-1.0, 1.0, d)  # two lobes: the first block alone has a different centre
     else:
         N = draw(st.integers(2, 40))
         x = draw(dense((N, d), fl(-1.0, 1.0)))
@@ -643,13 +1096,23 @@ def cloud_case(draw):
     scale = 10.0 ** draw(st.sampled_from([-2, -1, 0, 0, 1, 2]))
     scale *= draw(st.sampled_from([1.0, 1.0, 0.37, 2.5]))
     offset = np.array([draw(st.one_of(st.just(0.0), nice_float(-100.0, 100.0))) for _ in range(d)])
-    return {"pos": offset + scale * x, "kind": kind, "d": d}
+    pos = offset + scale * x
+    rep = draw(st.sampled_from(["f64", "f64", "f64", "int64", "strided", "fortran"]))
+    if rep == "int64":
+        # integer coordinates (lattice sites, pixel / voxel indices of an image analysis): the extent is scaled to a
+        # few hundred units first so that rounding keeps the shape
+        ext = float(np.abs(pos - pos.mean(axis=0)).max())
+        if ext > 0:
+            pos = np.rint(pos.mean(axis=0)) + np.rint((pos - pos.mean(axis=0)) * (draw(st.sampled_from([7.0, 40.0, 300.0])) / ext))
+        pos = pos.astype(np.int64)
+    return {"pos": pos, "kind": kind, "d": d, "rep": rep}
 
 
 def check_gyration(case):
     pos = case["pos"]
     N, d = pos.shape
-    want, g = ref.gyration_list(pos)
+    rep = case.get("rep", "f64")
+    want, g = ref.gyration_list(pos.astype(float))
     spread = float(np.abs(pos - pos[0]).max())
     T = g["trace"]
     # domain: a cloud with extent; coincident points (R_g = 0) or an extent below 1e-6 of the coordinate
@@ -658,7 +1121,16 @@ def check_gyration(case):
     # underflow (seed 3 drew two points 1.3e-82 apart: nan on both sides)
     if not (spread > 1e-6 * float(np.abs(pos).max()) and spread > 1e-60 and T > 0):
         return {"nontrivial": False, "tags": ["degenerate-or-illconditioned", f"d{d}"]}
-    out = gyration_tensor(pos.copy())
+    if rep == "strided":  # a view into a wider table (every second row, three of its columns), as positions[mask] is
+        big = np.full((2 * N, d + 2), 7.5)
+        big[::2, 1:1 + d] = pos
+        arg = big[::2, 1:1 + d]
+    elif rep == "fortran":
+        arg = np.asfortranarray(pos.copy())
+    else:
+        arg = pos.copy()
+    out = gyration_tensor(arg)
+    require(np.array_equal(arg, pos), "gyration_tensor modified its input")
     require(isinstance(out, (list, tuple)) and len(out) == len(want),
             lambda: f"expected a list of {len(want)} descriptors, got {type(out).__name__} of length "
                     f"{len(out) if hasattr(out, '__len__') else '?'}")
@@ -677,9 +1149,10 @@ def check_gyration(case):
             continue
         close(nm, got[k], complex(want[k]), rtol=1e-9, atol=atols[nm])
     lam = g["lam"]
-    tags = [f"d{d}", case["kind"], "N2" if N == 2 else ("N3-9" if N < 10 else "N10+"),
+    tags = [f"d{d}", case["kind"], "N2" if N == 2 else ("N3-9" if N < 10 else ("N10+" if N < 100 else
+                                                                               ("N100+" if N <= 1024 else "N>1024"))),
             "Rg<1" if g["rg"] < 1 else "Rg>1", "fractal-asserted" if fractal_ok else "fractal-skipped",
-            "offset" if np.any(np.abs(pos.mean(axis=0)) > 10 * spread) else "centred-ish"]
+            "offset" if np.any(np.abs(pos.mean(axis=0)) > 10 * spread) else "centred-ish", "repr-" + rep]
     if lam[-1] > 0 and (lam[1] - lam[0]) < 1e-9 * lam[-1]:
         tags.append("degenerate-eigenvalues")
     if np.iscomplexobj(np.asarray(out)):
@@ -688,29 +1161,43 @@ def check_gyration(case):
 
 
 def describe_cloud(case):
-    return {"kind": case["kind"], "N": int(len(case["pos"])), "pos": np.round(case["pos"][:6], 6).tolist()}
+    return {"kind": case["kind"], "N": int(len(case["pos"])), "rep": case.get("rep", "f64"),
+            "pos": np.round(case["pos"][:6], 6).tolist()}
 
 
 # =============================================================================== facets
 
 FACETS = [
-    Facet("s2_2d", s2_case(2), check_s2, quick=400, thorough=12000, describe=describe_s2, shards_quick=2,
+    Facet("s2_2d", s2_case(2), check_s2, quick=360, thorough=48000, describe=describe_s2, shards_quick=2,
           rule="2D S2 vs reference; non-trivial = some asserted particle has >= 2 contributing neighbours"),
-    Facet("s2_3d", s2_case(3), check_s2, quick=400, thorough=12000, describe=describe_s2, shards_quick=2,
+    Facet("s2_3d", s2_case(3), check_s2, quick=360, thorough=48000, describe=describe_s2, shards_quick=2,
           rule="3D S2 vs reference; non-trivial = some asserted particle has >= 2 contributing neighbours"),
-    Facet("s2_sheared", s2_case(None, shear=True), check_s2, quick=200, thorough=8000, describe=describe_s2,
+    Facet("s2_sheared", s2_case(None, shear=True), check_s2, quick=200, thorough=30000, describe=describe_s2,
           shards_quick=2, rule="2-3 frames, triclinic, tilt factors differ between frames (same edge lengths), 2D and "
                                "3D; each frame against the oracle with its own cell; non-trivial as s2_2d"),
-    Facet("tetra_generic", tetra_case(), check_tetra, quick=600, thorough=20000, describe=describe_cfg,
-          shards_quick=2, rule="3D, N 5..16 (N = 5 forced in 1/4); non-trivial = an asserted particle with q != 1"),
-    Facet("tetra_sheared", tetra_case(shear=True), check_tetra, quick=250, thorough=10000, describe=describe_cfg,
-          rule="2-3 frames, triclinic, tilt factors differ between frames; each frame with its own cell"),
-    Facet("tetra_perfect", perfect_case(), check_perfect, quick=300, thorough=10000, describe=describe_perfect,
-          rule="centre of a rotated/scaled regular tetrahedron (+0..5 farther particles) and every diamond site: q = 1"),
-    Facet("tetra_far_move", far_case(), check_far, quick=300, thorough=15000, describe=describe_far,
-          rule="a particle outside the four nearest of i is moved farther from i; non-trivial = a candidate exists"),
-    Facet("nematic", nematic_case(), check_nematic, quick=600, thorough=30000, describe=describe_nematic,
+    Facet("s2_intrepr", s2_int_case(), check_s2, quick=120, thorough=18000, describe=describe_s2,
+          rule="int64 coordinates / edges / bounds / cell matrix / width matrix, int or float bin width; as s2_2d"),
+    Facet("s2_large", st.one_of(s2_case(None, nrange=(40, 150)), s2_case(None, nrange=(4, 10), frames=(6, 12))), check_s2,
+          quick=12, thorough=3000, describe=describe_s2, shards_quick=2,
+          rule="N 40..150 (1-2 frames) or 6..12 frames of 4..10 particles; as s2_2d"),
+    Facet("tetra_generic", tetra_case(), check_tetra, quick=520, thorough=72000, describe=describe_cfg,
+          shards_quick=2, rule="3D, N 5..40 (N = 5 forced in 1/4); non-trivial = an asserted particle with q != 1"),
+    Facet("tetra_sheared", tetra_case(shear=True), check_tetra, quick=200, thorough=30000, describe=describe_cfg,
+          shards_quick=2, rule="2-3 frames, triclinic, tilt factors differ between frames; each frame with its own cell"),
+    Facet("tetra_intrepr", tetra_int_case(), check_tetra, quick=120, thorough=18000, describe=describe_cfg,
+          rule="int64 coordinates on a fine grid, int64 cell; N 5..30"),
+    Facet("tetra_large", tetra_large_case(), check_tetra, quick=20, thorough=3000, describe=describe_cfg, shards_quick=2,
+          rule="N 130..420, droplet+vapour / slab / void / uniform; non-trivial as tetra_generic"),
+    Facet("tetra_perfect", perfect_case(), check_perfect, quick=300, thorough=36000, describe=describe_perfect,
+          rule="centre of a rotated/scaled regular tetrahedron (+0..5 farther particles) and every site of a diamond "
+               "lattice (cubic / orthorhombic supercell, rhombohedral supercell of the primitive cell): q = 1"),
+    Facet("tetra_far_move", far_case(), check_far, quick=300, thorough=45000, describe=describe_far,
+          rule="one particle / all particles outside the four nearest of i moved farther from i; non-trivial = a "
+               "candidate exists"),
+    Facet("nematic", nematic_case(), check_nematic, quick=600, thorough=90000, describe=describe_nematic,
           shards_quick=2, rule="2D unit vectors from angles; non-trivial = N >= 2 and not all orientations parallel"),
-    Facet("gyration", cloud_case(), check_gyration, quick=1500, thorough=60000, describe=describe_cloud,
+    Facet("nematic_large", nematic_case(nrange=(50, 300), frange=(1, 10), by_seed=True), check_nematic, quick=8,
+          thorough=2000, describe=describe_nematic, rule="N 50..300, 1..10 frames, directed lists of 0..8 entries"),
+    Facet("gyration", cloud_case(), check_gyration, quick=1500, thorough=180000, describe=describe_cloud,
           shards_quick=2, rule="clouds N >= 2 in 2D/3D; non-trivial = R_g > 0 and N >= 3"),
 ]
